@@ -55,6 +55,7 @@ impl ShardCtx {
         self.open_findings.iter().any(|f| f == finding)
     }
     pub fn journal(&self, variant: &str, case: &Json) {
+        tick();
         if !self.journal.is_empty() {
             self.journal_raw(&serde_json::to_vec(&json!({"variant": variant, "case": case})).unwrap());
         }
@@ -230,6 +231,55 @@ pub fn panic_signature(p: &str) -> String {
     format!("panic:{}:{}", file, m)
 }
 
+// ---------------------------------------------------------------------------
+// real-time watchdog of a worker: a case that burns CPU inside a single task poll (or blocks the
+// thread) can be seen neither by the virtual-time watchdog nor by the poll budget
+
+static PROGRESS_CPU_MS: std::sync::atomic::AtomicU64 = std::sync::atomic::AtomicU64::new(0);
+static PROGRESS_WALL_MS: std::sync::atomic::AtomicU64 = std::sync::atomic::AtomicU64::new(0);
+/// CPU seconds one case may burn before the worker gives up on it
+pub const SPIN_CPU_SECS: u64 = 90;
+/// wall-clock seconds without progress before the worker gives up (inconclusive, not a violation)
+pub const STUCK_WALL_SECS: u64 = 900;
+
+fn process_cpu_ms() -> u64 {
+    let mut ts = libc::timespec { tv_sec: 0, tv_nsec: 0 };
+    // SAFETY: plain syscall wrapper writing into a local timespec
+    unsafe {
+        libc::clock_gettime(libc::CLOCK_PROCESS_CPUTIME_ID, &mut ts);
+    }
+    ts.tv_sec as u64 * 1000 + ts.tv_nsec as u64 / 1_000_000
+}
+fn wall_ms() -> u64 {
+    static T0: std::sync::OnceLock<std::time::Instant> = std::sync::OnceLock::new();
+    T0.get_or_init(std::time::Instant::now).elapsed().as_millis() as u64
+}
+
+/// a case starts (or made progress)
+pub fn tick() {
+    PROGRESS_CPU_MS.store(process_cpu_ms(), std::sync::atomic::Ordering::Relaxed);
+    PROGRESS_WALL_MS.store(wall_ms(), std::sync::atomic::Ordering::Relaxed);
+}
+
+/// exit code 3: CPU spin in one case; exit code 4: no progress in wall-clock time
+pub fn start_watchdog() {
+    tick();
+    let spin_secs: u64 = std::env::var("VERIF_SPIN_CPU_SECS").ok().and_then(|s| s.parse().ok()).unwrap_or(SPIN_CPU_SECS);
+    std::thread::spawn(move || loop {
+        std::thread::sleep(std::time::Duration::from_millis(500));
+        let cpu = process_cpu_ms().saturating_sub(PROGRESS_CPU_MS.load(std::sync::atomic::Ordering::Relaxed));
+        let wall = wall_ms().saturating_sub(PROGRESS_WALL_MS.load(std::sync::atomic::Ordering::Relaxed));
+        if cpu > spin_secs * 1000 {
+            eprintln!("SPIN-WATCHDOG: the current case has burnt {} s of CPU without finishing (busy loop inside one poll)", cpu / 1000);
+            std::process::exit(3);
+        }
+        if wall > STUCK_WALL_SECS * 1000 {
+            eprintln!("STUCK-WATCHDOG: no case finished for {} s of wall-clock time", wall / 1000);
+            std::process::exit(4);
+        }
+    });
+}
+
 /// run a closure catching unwinds; any panic (from anywhere) is returned as Err with the records
 pub fn guarded<R>(f: impl FnOnce() -> R) -> Result<R, Vec<String>> {
     let _ = take_panics();
@@ -277,6 +327,10 @@ where
     let reprc = RefCell::new(std::mem::take(rep));
     let last_sig: RefCell<Option<String>> = RefCell::new(None);
     let result = runner.run(&strat, |v| {
+        tick();
+        if !ctx.journal.is_empty() {
+            ctx.journal(variant, &serde_json::to_value(&v).unwrap_or(Json::Null));
+        }
         let mut obs = Obs::default();
         let r = f(&v, &mut obs);
         if !failed.get() {
